@@ -495,6 +495,7 @@ func init() {
 			c.ReplyRequestScoped("C16") // ... and handed back in a response object of its own
 			c.ScatterIndexDiscipline("C08")
 			c.LosslessSplit("C08")
+			c.FirstSlashOnly("C08")
 			c.ScatterPartition("C08")
 			c.RulerPositions("C08")
 			c.HandlerSignature("C08")
